@@ -13,27 +13,28 @@ tvars == <<tid, l, err>>
 
 RoundTrip(e, fmt) ==
   LET pre == IF fmt = "xml" THEN "C01." ELSE "C02." IN
-  IF ~(IF fmt = "xml" THEN XmlExpressible(e.desc) ELSE PbExpressible(e.desc)) THEN "driver/inexpressible-case"
-  ELSE IF e.orig # Leaves(e.desc) THEN "driver/alpha-gamma"        \* the harness built / projected something else
-  ELSE IF e.exc = "write" THEN pre \o "Total/write"
-  ELSE IF e.exc = "read" THEN pre \o "Total/read"
-  ELSE Diff(fmt, Expected(fmt, e.desc), e.back)
+  IF ~(IF fmt = "xml" THEN XmlExpressible(e.desc) ELSE PbExpressible(e.desc)) THEN {"driver/inexpressible-case"}
+  ELSE IF e.orig # Leaves(e.desc) THEN {"driver/alpha-gamma"}      \* the harness built / projected something else
+  ELSE IF e.exc = "write" THEN {pre \o "Total/write"}
+  ELSE IF e.exc = "read" THEN {pre \o "Total/read"}
+  ELSE Diffs(fmt, Expected(fmt, e.desc), e.back)                   \* every differing leaf, one clause each
 
-Clause(e) ==
+Single(c) == IF c = "" THEN {} ELSE {c}
+Clauses(e) ==        \* the set of clauses an event fails ({} = accepted)
   CASE e.op = "xml_roundtrip" -> RoundTrip(e, "xml")
     [] e.op = "pb_roundtrip"  -> RoundTrip(e, "pb")
-    [] e.op = "xsd" ->
+    [] e.op = "xsd" -> Single(
          IF e.exc # "" THEN "driver/no-document"               \* a writer crash is C01.Total/write; C03 speaks about written files
          ELSE LET r == DocRule(e.els, e.ids, e.refs) IN        \* lxml only cross-checks the transcription
               IF (r = "") # (e.lxml = "valid") THEN "machinery/schema-transcription"
               ELSE IF r # "" THEN "C03." \o r
-              ELSE IF e.reader # "ok" THEN "C03.ReaderAccepts" ELSE ""
-    [] OTHER -> "machinery/unknown-op"
+              ELSE IF e.reader # "ok" THEN "C03.ReaderAccepts" ELSE "")
+    [] OTHER -> {"machinery/unknown-op"}
 
 TInit == tid \in 1..Len(Traces) /\ l = 1 /\ err = 0
 TStep == /\ l <= Len(Traces[tid].ev)
-         /\ LET e == Traces[tid].ev[l]  c == Clause(e)
-            IN err' = IF c = "" THEN err ELSE IF PrintT(<<"REJECT", tid, l, c>>) THEN err + 1 ELSE err
+         /\ LET e == Traces[tid].ev[l]  cs == Clauses(e)       \* one REJECT line per failed clause
+            IN err' = IF cs = {} THEN err ELSE IF \A c \in cs : PrintT(<<"REJECT", tid, l, c>>) THEN err + 1 ELSE err
          /\ l' = l + 1 /\ UNCHANGED tid
 TSpec == TInit /\ [][TStep]_tvars
 =============================================================================
